@@ -114,8 +114,14 @@ def run_case(case, seed):
     ph.run_mesh(MESH, is_mesh_symmetry=False, is_gamma_center=True, with_eigenvectors=True, with_group_velocities=True)
     md = ph.get_mesh_dict()
     trans += 1
-    qs = np.array(list(md["qpoints"]) + [[0.11, 0.23, -0.31], [0.4, 0.1, 0.27], [0.0, 0.3, 0.3]])
+    qs = np.array(list(md["qpoints"]) + [[0.11, 0.23, -0.31], [0.4, 0.1, 0.27], [0.0, 0.3, 0.3],
+                                           # two points close to Gamma on either side of 1e-4 1/A but above phonopy's zone-centre tolerance of
+                                           # 1e-5 1/A (2e-4 reduced = 3..7e-5 1/A for these cells): every path must still treat them as q != 0.
+                                           # (Points below the tolerance are snapped to Gamma by the single-q paths and evaluated at q by the batched
+                                           # one: an O(q^2) = 2e-9 difference that is not an inconsistency.)
+                                           [0.0, 2e-3, 0.0], [0.0, 0.0, 2e-4]])
     nmesh = len(md["qpoints"])
+    RECP = np.linalg.inv(np.asarray(ph.primitive.cell))  # columns: reciprocal basis vectors (no 2 pi)
     # reference: plain q-point run with everything on, before anything else touched the object
     ph.run_qpoints(qs, with_eigenvectors=True, with_group_velocities=True, with_dynamical_matrices=True)
     ref = {k: np.array(v) for k, v in ph.get_qpoints_dict().items() if v is not None}
@@ -168,7 +174,8 @@ def run_case(case, seed):
             d = ph.get_qpoints_dict()
             trans += 1
             what = "run_qpoints(eig=%s,gv=%s,dm=%s,qdir=%s)" % (we, wg, wd, "set" if qdir else None)
-            sl = slice(1, None) if (qdir and nac) else slice(None)  # with NAC a direction changes Gamma itself
+            # with NAC a direction changes Gamma itself, and every q closer to Gamma than phonopy's zone-centre tolerance (1e-5 1/A)
+            sl = np.array([not (qdir and nac and np.linalg.norm(RECP @ q_) < 1.5e-5) for q_ in qs])
             f = np.array(d["frequencies"])
             e = np.abs(lam(f[sl]) - lam(ref["frequencies"][sl])).max() / fscale ** 2
             if e > 1e-9:
